@@ -41,8 +41,8 @@ Definition opposite (s : side) : side := match s with Buy => Sell | Sell => Buy 
 Definition expected_closes (strat base : N) (f : ifilter) (is_ : list inst) : list oreq :=
   flat_map (fun p =>
     if in_scope f (fst p) (snd p) then
-      match i_pos (snd p), i_last (snd p) with
-      | Some ps, Some (_, price) =>
+      match i_pos (snd p), i_price (snd p) with
+      | Some ps, Some price =>
           [mkOReq (mkKey (i_ex (snd p)) (p_inst ps) strat (base + fst p))
                   (mkROpen (opposite (p_side ps)) price (p_qty ps) Market IOC)]
       | _, _ => []
@@ -60,15 +60,15 @@ Definition filter_eqb (a b : ifilter) : bool :=
   | _, _ => false
   end.
 
-Definition obs_insts (static : list inst) (o : list (omap * option pos * option (Z * Z))) : list inst :=
+Definition obs_insts (static : list inst) (o : list (omap * option pos * mdata)) : list inst :=
   map (fun p => mkInst (i_ex (fst p)) (i_base (fst p)) (i_quote (fst p)) (fst (fst (snd p))) (snd (fst (snd p))) (snd (snd p)))
       (combine static o).
 
 Definition inst_same (a b : inst) : bool :=
   omap_eqb (i_orders a) (i_orders b) && option_eqb pos_eqb (i_pos a) (i_pos b) &&
-  option_eqb (pair_eqb Z.eqb Z.eqb) (i_last a) (i_last b).
+  mdata_eqb (i_data a) (i_data b).
 Definition rest_same (a b : inst) : bool :=
-  option_eqb pos_eqb (i_pos a) (i_pos b) && option_eqb (pair_eqb Z.eqb Z.eqb) (i_last a) (i_last b).
+  option_eqb pos_eqb (i_pos a) (i_pos b) && mdata_eqb (i_data a) (i_data b).
 
 (** oracle's memory between steps: instruments as last observed, trading flag, and the previous
     step if it was a cancel command: its filter and the requests it managed to send *)
